@@ -198,7 +198,7 @@ def main():
         allm.extend(ms)
         print(f, len(ms), flush=True)
     print("total mutants", len(allm), flush=True)
-    nw = 14
+    nw = int(os.environ.get("MUT_WORKERS", "14"))
     chunks = [allm[i::nw * 8] for i in range(nw * 8)]
     t0 = time.time()
     done = 0
